@@ -388,5 +388,22 @@ CHECKS["C18"] = {
     ],
 }
 
+CHECKS["C20"] = {
+    "pkg": "./checks/c20",
+    "level": "exploration",
+    "technique": "model-based stateful property testing (rapid) through the real HTTP handler with hand-built JSON, per-endpoint shape validators, injected refusal causes, storage/LN fault injection and cache replay / near-replay probes",
+    "rule": ("rapid state machine driven ONLY through the in-process handler with bodies built from ordered key/value lists (never the repository's request types): fund (quote, pay, state poll, mint, re-mint), swap (ok and 12 refusal causes), mint refusals (9 causes), melt (paid / pending / unpaid and refusals, re-melt on paid and pending quotes, swap of pending inputs), reads (keysets, keys, keys/{id}, unknown keyset, info, checkstate, restore), keyset rotation, "
+             "faults (a storage error carrying a marker string injected at storage call k = 0..7 of the request, single or from-then-on, or Lightning errors with markers, on swap / mint quote / mint / melt quote / checkstate / restore / quote state / info / melt), cache probes (byte-identical replay of every successful swap / mint; near replays: trailing space, query string, other path, GET, reordered keys, one hex digit changed). "
+             "oracle: hand-written shape validators (status 200, Content-Type application/json, string states from the NUT enumerations, 66-hex points, 64-hex e/s, one signature per output with equal amounts, 60 keys ascending in the raw bytes, echo and order of Ys); refusals are status 400 with body exactly {detail: string, code: number} and code = the NUT code of the injected cause for the unambiguous causes "
+             "(10002, 10003, 10004, 11001, 11002, 11003, 11005, 11006, 11007, 11008, 12001, 12002, 20001, 20002, 20005, 20006, 20008); faulted requests answer 200 or a well-formed 400 with the generic detail, never containing the marker, 'sqlite' or backend text; identical replay returns identical bytes with zero storage/LN calls by the request; every near replay executes and is answered on its own merits. "
+             "non-trivial: a response to a request that reached mint logic; distinct = (endpoint, outcome class / cause / near-replay kind / fault position)."),
+    "level_text": "Generated request histories, refusal causes, fault positions and replays through the real router, middleware, handlers and JSON (un)marshalers; every response is validated by shape checkers written from the NUT documents.",
+    "level_note": _WORLD_NOTE + "Websocket endpoint (/v1/ws) and cache expiry (TTL) are not exercised. Calls of the mint's background watcher goroutines are not attributed to a request.",
+    "assumptions": ["handler served in-process via httptest (no sockets)", "cache TTL not exercised"],
+    "units": [
+        rapid("surface", "^TestSurface$", 320, 6000, qs=8, ts=16),
+    ],
+}
+
 NOT_APPLICABLE = {}
 HOOK_COMMITS = []
